@@ -41,7 +41,7 @@ type c06Prog struct {
 	InPlace  bool         `json:"inPlace"`            // corrupt the source's entry objects themselves (they were verified by an earlier merge) instead of copies
 }
 
-var c06Kinds = []string{"sig-removed", "key-removed", "sig-other-entry", "sig-flip", "payload-changed", "foreign-key", "key-garbage", "key-truncated", "foreign-logid", "next-changed", "time-changed"}
+var c06Kinds = []string{"sig-removed", "key-removed", "sig-other-entry", "sig-flip", "payload-changed", "foreign-key", "key-garbage", "key-truncated", "foreign-logid", "next-changed", "time-changed", "identity-removed"}
 
 func genC06(t *rapid.T) c06Prog {
 	cfg := sim.GenConfig{MaxReplicas: 3, MaxOps: ev.Scale(24, 50), MinOps: 2, Codecs: []int{0, 1, 2}, AppendBias: 3, NoRebuild: true, WithLoad: true, LargeOneIn: ev.Scale(128, 96)}
@@ -286,6 +286,10 @@ func runC06(tb ev.TB, p c06Prog) ev.Result {
 			c.SetKey(append([]byte(nil), e.GetKey()[:len(e.GetKey())/2]...))
 		case "foreign-logid":
 			c.SetLogID("some-other-log")
+		case "identity-removed":
+			// the identity record is not part of the signed content: the entry still verifies under its key, and
+			// whether it may be merged is for the access controller to say like for any other entry
+			c.SetIdentity(nil)
 		case "next-changed":
 			c.SetNext(append(append(e.GetNext()[:0:0], e.GetNext()...), cidPool[0]))
 		case "time-changed":
@@ -331,7 +335,7 @@ func runC06(tb ev.TB, p c06Prog) ev.Result {
 	heads := world.SetOf(world.Hashes(srcLog.Heads()))
 	for h := range cands {
 		kind, bad := corrupted[h]
-		isInvalid := (bad && kind != "foreign-logid") || pol.denies(byHash[h])
+		isInvalid := (bad && kind != "foreign-logid" && kind != "identity-removed") || pol.denies(byHash[h])
 		if isInvalid {
 			invalid = append(invalid, h)
 			if !heads.Has(h) {
